@@ -166,12 +166,19 @@ def main():
     rc = 0
     for (u, o, k) in knowns:
         print("KNOWN-FINDING: property=%s %s [unit %s obligation %s]" % (prop, k["text"], u.name, o["name"]))
+    shown = {}
     for i, (u, o, r) in enumerate(violations):
+        shown[u.name] = shown.get(u.name, 0) + 1
+        if shown[u.name] > 3:      # at most three VIOLATION lines per unit; the rest is summarised below and in the evidence
+            continue
         path = write_replay(prop, u, o, r, i)
         repro = native_replay(prop, u, o, r, path)
         print("VIOLATION property=%s replay=%s%s" % (prop, path, "" if repro else " no-failing-input-found"))
         print("  failed obligation %s (%s) at %s:%s in unit %s" % (o["name"], o["desc"], o["file"], o["line"], u.name))
         rc = 1
+    for name, cnt in shown.items():
+        if cnt > 3:
+            print("  (+%d more failed obligations in unit %s)" % (cnt - 3, name))
     for (u, r) in undecided:
         print("UNDECIDED property=%s unit=%s reason=%s" % (prop, u.name, r.get("reason", "")[:400].replace("\n", " ")))
         if rc == 0:
